@@ -330,6 +330,76 @@ class ABoolTerm(object):
 SUMMARIES_USED = set()
 
 
+def _plain_data(v, depth=0) -> bool:
+    if isinstance(v, (str, int, float, bool, type(None))):
+        return True
+    if depth > 6:
+        return False
+    if isinstance(v, (tuple, list, frozenset, set)):
+        return all(_plain_data(x, depth + 1) for x in v)
+    if isinstance(v, dict):
+        return all(_plain_data(k, depth + 1) and _plain_data(x, depth + 1) for k, x in v.items())
+    return False
+
+
+def _fold_class_data(p, owner, name):
+    """(True, value) when the class attribute is *computed* constant data (a table built by a comprehension, dict(zip()),
+    ...): the constant folder evaluates it; displays and everything else stay with the interpreter"""
+    raw = owner.attrs.get(name)
+    if not isinstance(raw, (ast.DictComp, ast.ListComp, ast.SetComp, ast.Call, ast.GeneratorExp, ast.BinOp)):
+        return False, None
+    cache = p.__dict__.setdefault("_folded_class_data", {})
+    key = (owner.qualname, name)
+    if key not in cache:
+        try:
+            from .fold import Folder
+
+            v = Folder(p).class_const(owner, name)
+            cache[key] = (True, v) if _plain_data(v) and isinstance(v, (dict, tuple, list, str, frozenset, set)) else (False, None)
+        except Exception:
+            cache[key] = (False, None)
+    ok, v = cache[key]
+    if ok:
+        import copy
+
+        return True, copy.deepcopy(v)
+    return False, None
+
+
+class ClassBodyEnv(dict):
+    """Names in scope for an expression written in a class body: the data
+    attributes bound in that body (evaluated on demand)."""
+
+    def __init__(self, interp, owner):
+        dict.__init__(self)
+        self._I, self._owner, self._busy = interp, owner, set()
+
+    def _raw(self, k):
+        raw = self._owner.attrs.get(k)
+        return raw if (isinstance(raw, (ast.AST, Const)) and k not in self._busy) else None
+
+    def __contains__(self, k):
+        return dict.__contains__(self, k) or self._raw(k) is not None
+
+    def __missing__(self, k):
+        raw = self._raw(k)
+        if raw is None:
+            raise KeyError(k)
+        if isinstance(raw, Const):
+            v = raw.value
+        else:
+            self._busy.add(k)
+            try:
+                v = Frame(self._I, None, self, module=self._owner.module).expr(raw)
+            finally:
+                self._busy.discard(k)
+        dict.__setitem__(self, k, v)
+        return v
+
+    def get(self, k, d=None):
+        return self[k] if k in self else d
+
+
 class ChainEnv(dict):
     """Variables of a nested function: its own names, falling through to the
     defining frame's variables as they are at the time of the read (closures
@@ -438,6 +508,16 @@ class ANT(tuple):
         o._nt_fields = tuple(fields)
         o._nt_class = klass
         return o
+
+
+_MISSING = object()
+
+
+class _SyntheticFunc(object):
+    """the function a generator expression stands for"""
+
+    def __init__(self, node):
+        self.node, self.qualname, self.name, self.decorators, self.owner = node, "<genexpr>", "<genexpr>", [], None
 
 
 class AGenCall(object):
@@ -900,6 +980,9 @@ class Interp(object):
         if is_gen and on_yield is None and node is not None and node is getattr(self, "lazy_gen_node", None):
             self.lazy_gen_node = None
             return AGenCall(fi, list(args), dict(kwargs))
+        if is_gen and on_yield is None and fi.qualname in self.hooks.get("lazy_gens", ()):
+            # the generator holds the loop under inductive evaluation: it runs interleaved with whoever consumes it
+            return AGenCall(fi, list(args), dict(kwargs))
         if self.depth >= MAX_INLINE_DEPTH:
             raise AnalysisError("inlining depth %d exceeded at %s" % (MAX_INLINE_DEPTH, fi.qualname))
         fn = fi.node
@@ -985,7 +1068,10 @@ class Interp(object):
         if isinstance(raw, Const):
             return raw.value
         if isinstance(raw, ast.AST):
-            fr = Frame(self, None, {}, module=owner.module)
+            ok, v = _fold_class_data(self.p, owner, name)
+            if ok:
+                return v
+            fr = Frame(self, None, ClassBodyEnv(self, owner), module=owner.module)
             return fr.expr(raw)
         raise AnalysisError("cannot evaluate %s.%s" % (obj, name))
 
@@ -1384,17 +1470,7 @@ class Frame(object):
                 return None
 
             try:
-                if it.closure_frame is not None:
-                    it.closure_frame.on_yield = on_yield
-                    I.frames.append(it.closure_frame)
-                    try:
-                        it.closure_frame.block(it.fi.node.body)
-                    except ReturnSig:
-                        pass
-                    finally:
-                        I.frames.pop()
-                else:
-                    I.call_function(it.fi, it.args, it.kwargs, st, on_yield=on_yield)
+                self.drive_generator(it, on_yield, st)
             except ConsumerSignal as cs:
                 if cs.sig is not None:
                     raise cs.sig
@@ -1413,6 +1489,12 @@ class Frame(object):
             if coll is None:
                 self.unsupported(st.iter, "iteration over the features of %r" % (it.rec,))
             it = coll
+        if isinstance(it, AList) and getattr(it, "_one_shot", None):
+            if getattr(it, "_consumed", False):
+                I.path.effects.append(("exhausted-iterator", it._one_shot, getattr(it, "source", None) or repr(it)[:60]))
+                self.block(st.orelse)
+                return
+            it._consumed = True
         if isinstance(it, AList) and it.generic:
             if getattr(it, "source", None):
                 # a view of an input collection walked element by element: like the collection itself
@@ -1438,6 +1520,9 @@ class Frame(object):
                 self.block(st.orelse)
             return
         if isinstance(it, AList):
+            items = list(it.items)
+        elif isinstance(it, AScan):
+            # the hits of a scan (one representative per way of hitting): the body runs for each
             items = list(it.items)
         elif isinstance(it, (list, tuple, str)):
             items = list(it)
@@ -1548,6 +1633,48 @@ class Frame(object):
             except LoopBreak:
                 return
         self.block(st.orelse)
+
+    def drive_generator(self, it: "AGenCall", on_yield, node):
+        """run the body of a lazy generator, handing every value it yields to ``on_yield`` (the consumer's step) at the
+        point of the yield"""
+        I = self.I
+        if it.closure_frame is not None:
+            it.closure_frame.on_yield = on_yield
+            I.frames.append(it.closure_frame)
+            try:
+                it.closure_frame.block(it.fi.node.body)
+            except ReturnSig:
+                pass
+            finally:
+                I.frames.pop()
+        else:
+            I.call_function(it.fi, it.args, it.kwargs, node, on_yield=on_yield)
+
+    def fold_generator(self, it: "AGenCall", step, init, node):
+        """sum(gen, init) / functools.reduce(f, gen, init): the accumulator is a variable of this frame (named <acc>) so
+        that an inductive evaluation of the generator's loop sees it as loop-carried state"""
+        saved = self.env.get("<acc>", _MISSING)
+        self.env["<acc>"] = init
+
+        def on_yield(value):
+            try:
+                self.env["<acc>"] = step(self.env["<acc>"], value)
+            except (RaiseSig, ReturnSig) as sig:
+                raise ConsumerSignal(sig)
+            return None
+
+        try:
+            try:
+                self.drive_generator(it, on_yield, node)
+            except ConsumerSignal as cs:
+                if cs.sig is not None:
+                    raise cs.sig
+            return self.env["<acc>"]
+        finally:
+            if saved is _MISSING:
+                self.env.pop("<acc>", None)
+            else:
+                self.env["<acc>"] = saved
 
     def while_loop(self, st: ast.While):
         I = self.I
@@ -1771,7 +1898,10 @@ class Frame(object):
                 return BoundMethod("repo", raw, a, extra=[])
             if isinstance(raw, Const):
                 return raw.value
-            fr = Frame(I, None, {}, module=owner.module)
+            ok, v = _fold_class_data(I.p, owner, a)
+            if ok:
+                return v
+            fr = Frame(I, None, ClassBodyEnv(I, owner), module=owner.module)
             return fr.expr(raw)
         hook = I.hooks.get("getattr")
         if hook is not None:
@@ -2166,6 +2296,20 @@ class Frame(object):
             return self.nested_comprehension(e)
         g = e.generators[0]
         it = self.expr(g.iter)
+        if isinstance(it, AGenCall):
+            if kind != "gen":
+                self.unsupported(e, "a %s comprehension materialises the generator that holds the loop under inductive evaluation" % kind)
+            # (elt for target in <lazy generator> if conds): itself a lazy generator, a closure over this frame
+            body = ast.Expr(value=ast.Yield(value=e.elt))
+            for c in reversed(g.ifs):
+                body = ast.If(test=c, body=[body], orelse=[])
+            loop = ast.For(target=g.target, iter=ast.Name(id="<src>", ctx=ast.Load()), body=[body], orelse=[])
+            fn = ast.FunctionDef(name="<genexpr>", args=ast.arguments(posonlyargs=[], args=[], kwonlyargs=[], kw_defaults=[], defaults=[]),
+                                 body=[loop], decorator_list=[])
+            ast.copy_location(fn, e)
+            ast.fix_missing_locations(fn)
+            sub = Frame(I, self.fi, ChainEnv(self.env, {"<src>": it}), module=self.m)
+            return AGenCall(_SyntheticFunc(fn), [], {}, closure_frame=sub)
         if isinstance(it, AFeatList):
             it = it.rec.attrs.get("feature_coll") or Term("features", it.rec.ident)
         if isinstance(it, AList) and it.generic:
@@ -2246,6 +2390,8 @@ class Frame(object):
                 t = Term("map", Term(it.name), _t(val), Term("over", _t(elem)))
                 if conds:
                     t = Term("filter", t, *[_t(c) for c in conds])
+                else:
+                    t._coll = (it.name, elem, val)  # one image per element of the input collection, in its order
                 return t
             # one image per element of the source collection
             out = AList([val], I.loop_depth, origin="map:%s" % it.name)
@@ -3169,6 +3315,10 @@ def lib_call(fr: Frame, dotted: str, args, kwargs, node):
         return AStruct("slice", lo=a[0], hi=a[1], step=a[2] if len(a) > 2 else None)
     if dotted == "functools.partial" and args:
         return ACallable("partial", *args, **kwargs)
+    if dotted == "functools.reduce" and len(args) == 3 and isinstance(args[1], AGenCall):
+        return fr.fold_generator(args[1], lambda acc, x: fr.call_value(args[0], [acc, x], {}, node), args[2], node)
+    if dotted == "builtins.sum" and len(args) == 2 and isinstance(args[0], AGenCall):
+        return fr.fold_generator(args[0], lambda acc, x: fr.binop(ast.Add(), acc, x, node), args[1], node)
     if dotted == "functools.reduce" and len(args) in (2, 3):
         seq = args[1]
         if isinstance(seq, AList) and not seq.generic:
@@ -3192,7 +3342,10 @@ def lib_call(fr: Frame, dotted: str, args, kwargs, node):
     if dotted == "itertools.repeat" and len(args) == 1:
         return ARepeat(args[0])
     if dotted in ("builtins.map", "builtins.filter", "builtins.zip"):
-        return _map_filter_zip(fr, short, args, node)
+        res = _map_filter_zip(fr, short, args, node)
+        if isinstance(res, AList):
+            res._one_shot = short  # an iterator: whoever walks it first exhausts it
+        return res
     if dotted == "contextlib.suppress":
         return AStruct("suppress", classes=list(args))
     if dotted == "contextlib.ExitStack" and not args and not kwargs:
@@ -3592,6 +3745,8 @@ def _map_filter_zip(fr: Frame, which: str, args, node):
             return x.name
         if isinstance(x, AList) and x.generic and getattr(x, "source", None) and len(x.items) == 1 and not getattr(x, "filtered", False):
             return x.source
+        if isinstance(x, Term) and getattr(x, "_coll", None):
+            return x._coll[0]
         return None
 
     names = {src_name(x) for x in finite}
@@ -3604,6 +3759,8 @@ def _map_filter_zip(fr: Frame, which: str, args, node):
                 elems.append(x.rec.attrs["feature_coll"].make_elem())
             elif isinstance(x, ACollection):
                 elems.append(x.make_elem())
+            elif isinstance(x, Term):
+                elems.append(x._coll[2])
             else:
                 elems.append(x.items[0])
         I.loop_depth += 1
